@@ -127,6 +127,8 @@ def shard(ctx):
             opts['arithmetic'] = 'fixed'
             opts['precision'] = rng.randint(3, 9)
             opts.pop('omega', None)
+        if rng.random() < 0.4:
+            s['tie'] = None        # default tie order (by candidate id): must not depend on the order of the ballot lines
         s2, kinds = variant(s, rng)
         t1 = gen.render(s)
         feats = set()
